@@ -15,4 +15,4 @@ for p in "$@"; do
   out=$(VERIF_REPO=$W ${VERIF_HOME:-/verif}/bin/egverify -property "$p" 2>&1); code=$?
   echo "$p exit=$code $(echo "$out" | grep -E '^(violated|CHECKER-ERROR)' | cut -c1-260 | tr '\n' ';')"
 done
-git -C "$W" checkout -q -- . && git -C "$W" clean -fdq
+git -C "$W" reset -q --hard && git -C "$W" clean -fdq
